@@ -336,7 +336,7 @@ def worker(item):
                                       "signature": {"kind": "triples", "leaves": item["leaves"], "triples": item["triples"]},
                                       "data": {"what": "triples", "leaves": item["leaves"], "triples": item["triples"]}, "confirmed": True})
     elif k == "roundtrip":
-        fails = roundtrip_fails(R_totuple(item["shape"])) + [f"with Newick-special characters in the labels: {f}" for f in roundtrip_fails(R_totuple(item["shape"]), odd=True)]
+        fails = roundtrip_fails(R_totuple(item["shape"])) + ([] if item.get("plain") else [f"with Newick-special characters in the labels: {f}" for f in roundtrip_fails(R_totuple(item["shape"]), odd=True)])
         out["obligations"] = 6
         out["discharged"] = 0 if fails else 6
         if fails:
@@ -360,6 +360,14 @@ def worker(item):
                     break
             else:
                 out["discharged"] += 5
+    elif k == "bighistory":
+        fails = history_fails(item["n"], [tuple(x) for x in item["history"]])
+        out["obligations"] = 4
+        out["discharged"] = 0 if fails else 4
+        if fails:
+            out["violations"].append({"kind": "disjoint-set", "text": f"{fails[:2]} after unions {item['history']} on {item['n']} elements",
+                                      "signature": {"kind": "disjoint-set", "history": item["history"]},
+                                      "data": {"what": "history", "n": item["n"], "history": item["history"]}, "confirmed": True})
     elif k == "histories":
         n, L = item["n"], item["len"]
         pairs = [(a, b) for a in range(n) for b in range(n)]
@@ -462,6 +470,20 @@ def main(argv=None):
                 for kb in subsets:
                     block.append([restrict(a, ka), restrict(b, kb)])
             items.append({"kind": "supertree-block", "cases": block, "section": 3})
+    # larger structures (seeded): deep union forests on 9-14 elements (long merge chains: most elements end in 2-4 blocks), and the
+    # triple round trip on 8-10 leaves
+    for _ in range(150 if q else 2000):
+        nb = rng.randint(9, 14)
+        hist = []
+        blocks = [[i] for i in range(nb)]
+        while len(blocks) > rng.randint(2, 4):
+            a, b = rng.sample(range(len(blocks)), 2)
+            hist.append((rng.choice(blocks[a]), rng.choice(blocks[b])))
+            blocks[a] += blocks[b]
+            del blocks[b]
+        items.append({"kind": "bighistory", "n": nb, "history": hist, "section": 6})
+    for _ in range(8 if q else 200):
+        items.append({"kind": "roundtrip", "shape": _rand_shape(rng, [chr(ord("a") + i) for i in range(rng.randint(8, 9 if q else 10))]), "section": 6, "plain": True})
     n = 5
     pairs = [(a, b) for a in range(n) for b in range(n)]
     items.append({"kind": "histories", "n": n, "len": 0, "firsts": [pairs[0]], "section": 4})
@@ -476,7 +498,8 @@ def main(argv=None):
     names = ["tree_to_triples / tree_from_triples round trip: every binary tree on <= 5 leaves", "every subset of the triples on 3 and 4 leaves (z3 clade spec)",
              "seeded triple sets on 5-6 leaves (z3 clade spec)", "supertree / all_supertrees of seeded restrictions (z3 clade spec)",
              f"DisjointSet: every union history of length <= {3 if q else 4} on 5 elements (enumeration)",
-             f"DisjointSet: one operation from every forest state on {4 if q else 5} elements (enumeration, inductive step)"]
+             f"DisjointSet: one operation from every forest state on {4 if q else 5} elements (enumeration, inductive step)",
+             "larger structures (seeded): merge histories on 9-14 elements down to 2-4 blocks; triple round trip on 8-10 leaves"]
     for si, nm in enumerate(names):
         mine = [r for r in res if r.get("section") == si]
         rep.add_results(nm, mine, sum(1 for it in items if it["section"] == si) - len(mine), exhaustive=si in (0, 1, 4, 5))
